@@ -525,6 +525,7 @@ var _ = fmt.Sprintf
 // TestVerifReplay: the reproducer of the repaired defect (a continuation token that cannot be minted is reported to the client); the other TestScout* functions of this file reproduce findings that are not repaired and are not run
 func TestVerifReplay(t *testing.T) {
 	t.Run("TestScoutHTTPProducerTokenFailureNotReported", TestScoutHTTPProducerTokenFailureNotReported)
+	t.Run("TestScoutHTTPExchangeWriteFailureNotReported", TestScoutHTTPExchangeWriteFailureNotReported)
 	t.Run("TestScoutPipeUnaryTypedNilErrorSkipsHookEnd", TestScoutPipeUnaryTypedNilErrorSkipsHookEnd)
 	t.Run("TestScoutPipeStreamTypedNilErrorSkipsHookEnd", TestScoutPipeStreamTypedNilErrorSkipsHookEnd)
 	t.Run("TestScoutPipeTypedNilErrorKillsServeLoop", TestScoutPipeTypedNilErrorKillsServeLoop)
